@@ -63,6 +63,9 @@ class ReadRule(BaseRule):
             fl = kw.get("flush_decoder", pos[2] if len(pos) > 2 else None)
             dc = kw.get("decode_content", pos[1] if len(pos) > 1 else None)
             self.decodes.append((st.view(fl) if fl is not None else None, st.view(dc) if dc is not None else None, s, node))
+            flv_ = st.view(fl) if fl is not None else None
+            if flv_ is not None and (flv_.truth is True or (flv_.kind == "const" and flv_.val is True)):
+                s.ts["flushed"] = True
             d0 = kw.get("data", pos[0] if pos else None)
             self.decode_data.append(st.view(d0).truth if d0 is not None else None)
             # decoding with decode_content false returns the raw bytes
@@ -200,6 +203,43 @@ def stale_flush_clause(ctx, R6, fi, rule):
         ctx.ob(R6, fi.qual, f"decode at line {node.lineno}: bytes that may be empty (end of the raw stream) are not decoded under a definitely-false flush flag", False,
                "the flush flag was decided on an earlier read of this call: when the refill read hits the end of the body the decoder is never flushed, so an incomplete zstd frame "
                "(or a held-back tail) goes unnoticed and read(n) / stream(n) end normally", witness=st.witness(), node=node)
+
+def eof_return_flush_clause(ctx, R6, fi, rule, outs):
+    """(C12-R6, shared with C13) read() does not report the end of the body before the decoder was flushed."""
+    # a return on which the raw stream has just ended (no data) and nothing is queued is the end of the body as the caller sees it; if
+    # bytes of this body went through the decoder earlier (by earlier calls), the decoder is flushed on that path - an incomplete zstd
+    # frame is reported by flush() only, and a read(n) loop whose n divides what was decoded so far arrives here with an empty queue
+    seen = set()
+    n = 0
+    for o in outs:
+        if o.kind != "return":
+            continue
+        st = o.st
+        data_t = st.facts.get("data", (None, None))[0]
+        if data_t is not False:
+            continue
+        rv = st.view(o.val) if o.val is not None else None
+        if rv is None or "from-buffer" in rv.tags or "decoded" in rv.tags:
+            continue
+        amt_av = st.view(st.env.get("f0:amt", UNK))
+        amt0 = st.ts.get(("cmp", "p:amt", "==", "0")) if amt_av.kind != "const" else (amt_av.val == 0)
+        if amt0 is True:
+            continue
+        dc = st.view(st.env.get("f0:decode_content", UNK))
+        if dc.truth is False:
+            continue
+        had = st.facts.get("has_decoded", (None, None))[0]
+        key = (had, bool(st.ts.get("flushed")), amt_av.none)
+        if key in seen:
+            continue
+        seen.add(key)
+        n += 1
+        ok = bool(st.ts.get("flushed")) or had is False
+        ctx.ob(R6, fi.qual, f"end of the body reported (no data, nothing queued; earlier decoding={had}): the decoder was flushed first (flushed={bool(st.ts.get('flushed'))})", ok,
+               "" if ok else "read() returns the empty end-of-body without flushing a decoder that earlier calls fed: a zstd frame cut at a block boundary ends read(n) loops and stream(n) normally "
+               "whenever n divides the bytes decoded so far (read() and read1() raise DecodeError for the same body)", witness=st.witness(), node=fi.node)
+    ctx.sites(R6, n, 1, "end-of-body returns of read with the decoder possibly fed")
+
 
 def multidecoder_flush_clause(ctx, R4):
     """(C12-R4, shared with C13-R4) MultiDecoder.flush reaches every layer of a stacked coding."""
@@ -520,6 +560,7 @@ def run(ctx):
                "" if fl == want else "the tail held back by the decoder is never delivered (or the decoder is flushed mid-stream)", witness=st.witness(), node=node)
     ctx.sites(R6, len(seen), 3, "decode calls in read with decided flush flag")
     stale_flush_clause(ctx, R6, fi, rule)
+    eof_return_flush_clause(ctx, R6, fi, rule, outs)
 
     # ------------------------------------------------------------------ R7 stream drains the queue
     R7 = ctx.rule("C12-R7", "stream()'s loop ends only when the stdlib response is closed and the decoded-byte queue is empty", "E4")
